@@ -117,3 +117,43 @@ impl<W> BoundedReadWords<W, Stack> for FaultyBackend<W> {
         self.v.len()
     }
 }
+
+/// A minimal user-written seekable word source (queue semantics): implements exactly what the
+/// traits require and relies on every provided default (in particular the `maybe_exhausted`
+/// hint, whose default is the uninformative `true`).
+#[derive(Clone, Debug)]
+pub struct PlainSeekSource<W> {
+    pub v: Vec<W>,
+    pub pos: usize,
+}
+
+impl<W: Clone> ReadWords<W, constriction::Queue> for PlainSeekSource<W> {
+    type ReadError = Infallible;
+    fn read(&mut self) -> Result<Option<W>, Infallible> {
+        let r = self.v.get(self.pos).cloned();
+        if r.is_some() {
+            self.pos += 1;
+        }
+        Ok(r)
+    }
+}
+
+impl<W> PosSeek for PlainSeekSource<W> {
+    type Position = usize;
+}
+
+impl<W> Pos for PlainSeekSource<W> {
+    fn pos(&self) -> usize {
+        self.pos
+    }
+}
+
+impl<W> constriction::Seek for PlainSeekSource<W> {
+    fn seek(&mut self, pos: usize) -> Result<(), ()> {
+        if pos > self.v.len() {
+            return Err(());
+        }
+        self.pos = pos;
+        Ok(())
+    }
+}
